@@ -22,3 +22,17 @@ Definition fmt_v (v : value) : str :=
   | _ => s "?"                                      (* containers: outside the model *)
   end.
 
+
+(* int(f) for a float64 given by its %v text: [-]ddd[.ddd] truncates toward zero; an
+   exponent form with a negative exponent is below 1e-4, hence 0 *)
+Fixpoint take_digits (x : str) : str :=
+  match x with c :: t => if is_digit c then c :: take_digits t else [] | [] => [] end.
+Definition flt_to_int (f : flt) : Z :=
+  let '(neg, body) := match f with
+                      | "-"%char :: t => (true, t)
+                      | "+"%char :: t => (false, t)
+                      | _ => (false, f)
+                      end in
+  if mem_ascii "e"%char body then 0%Z
+  else let z := digits_val (take_digits body) 0 in if neg then (- z)%Z else z.
+
